@@ -58,11 +58,32 @@ def sh(cmd, cwd=None, env=None, timeout=1800, stdin=None):
 
 # ------------------------------------------------------------------ translate + coq build
 
+def compiled_constants():
+    """values of the library's constants as compiled into the default harness build (`hv consts`);
+    None when the harness does not build (the translator then falls back to reading the text)"""
+    try:
+        rc, out, binary = harness_build("default")
+        if rc != 0:
+            return None
+        p = subprocess.run([binary, "consts", "0"], stdout=subprocess.PIPE, stderr=subprocess.PIPE, text=True, timeout=120)
+        if p.returncode != 0 or '"k":"const"' not in p.stdout:
+            return None
+        os.makedirs(CACHE, exist_ok=True)
+        path = os.path.join(CACHE, "consts.jsonl")
+        with open(path, "w") as fh:
+            fh.write(p.stdout)
+        return path
+    except Exception:
+        return None
+
+
 def translate(env_override=None, out=None):
     cmd = [sys.executable, os.path.join(VERIF, "translator", "translate.py"),
            out or os.path.join(COQ, "theories", "Gen", "Generated.v")]
-    if env_override:
-        cmd.append(json.dumps(env_override))
+    cmd.append(json.dumps(env_override) if env_override else "null")
+    consts = compiled_constants()
+    if consts:
+        cmd.append(consts)
     rc, out_text = sh(cmd, env={"VERIF_REPO": REPO})
     summary = None
     for line in out_text.splitlines():
@@ -203,7 +224,21 @@ def run_shards(pid, cases, workdir, preamble_extra="", with_rfc=False, kc_term="
     loads = [0.0] * NSHARDS
     # greedy on blocks of consecutive cases
     block = max(1, min(32, len(cases) // (NSHARDS * 4)))
-    blocks = [list(range(i, min(i + block, len(cases)))) for i in range(0, len(cases), block)]
+    # blocks of consecutive cheap cases (they share byte strings); an expensive case is a block of its own
+    blocks, cur = [], []
+    for i in range(len(cases)):
+        if case_cost(cases[i][1]) > 1.0:
+            if cur:
+                blocks.append(cur)
+                cur = []
+            blocks.append([i])
+        else:
+            cur.append(i)
+            if len(cur) >= block:
+                blocks.append(cur)
+                cur = []
+    if cur:
+        blocks.append(cur)
     blocks.sort(key=lambda bl: -sum(case_cost(cases[i][1]) for i in bl))
     for bl in blocks:
         k = loads.index(min(loads))
@@ -411,6 +446,14 @@ def run_property(pid, tier, seed, replay=None):
             items.append({"k": "oracle", "name": "same_bytes_in_another_process", "ok": same,
                           "why": "two processes running the same calls produced different outputs",
                           "lines": [len(its), len(its2)], "difference": first})
+        if fam.get("judge") == "no_panic":
+            # this property only asks the family's calls not to panic (their functional oracles belong
+            # to another property): an oracle line fails here iff the call it describes panicked
+            for it in items:
+                if it.get("k") == "oracle" and "result" in it:
+                    it["ok"] = it["result"] != "panic"
+                    it["name"] = str(it.get("name")) + ":no_panic"
+                    it["kf"] = ""
         for it in items:
             it["_family"] = fam["name"]
             it["_config"] = config
